@@ -6,9 +6,11 @@
     * `header_C_eq_model`       `rtr_pdu_convert_header_byte_order` (both directions; the 16-bit field is left alone for ROUTER_KEY) = `Conv.convHeader`
     * `to_network_C_eq_model`   `rtr_pdu_to_network_byte_order` (body first, then header) = `Conv.toNetwork`, fixed-layout types
     * `footer_to_host_C_eq_model`  `rtr_pdu_footer_to_host_byte_order` = `Conv.convFooter .toHost`, fixed-layout types
+    * `send_receive_roundtrip_C`   sender conversion then receiver conversions, all as translated: defined at every step, identity
   (IPv6 Prefix and Error Report: the body conversion is linked in CLinkFooterModel; the compositions are not restated here.)
 -/
 import RtrProofs.CLinkFooterModel
+import RtrProofs.PduConv
 
 namespace Rtr.CLink.Footer
 open Rtr Rtr.Gen Rtr.CLink
@@ -170,6 +172,63 @@ theorem footer_to_host_C_eq_model (raw : List Nat) (hb : Bytes raw) (h2 : 2 ≤ 
   have e := footer_C_eq_model .toHost raw hb h2 h6 h10 hn
   simp only [dirCode] at e
   simp only [e]
+
+theorem convHeader_bytes (raw : List Nat) (hb : Bytes raw) : Bytes (Conv.convHeader raw) := by
+  unfold Conv.convHeader
+  split
+  · exact revAt_bytes _ (revAt_bytes _ hb _ _) _ _
+  · exact revAt_bytes _ hb _ _
+
+theorem convHeader_length (raw : List Nat) : (Conv.convHeader raw).length = raw.length := by
+  unfold Conv.convHeader
+  split <;> simp [revAt_length]
+
+theorem convHeader_type (raw : List Nat) : P.typeOf (Conv.convHeader raw) = P.typeOf raw ∧ P.verOf (Conv.convHeader raw) = P.verOf raw := by
+  rw [Conv.convHeader_eq]
+  exact Conv.typeOf_revFields _ _ (Conv.hdrFields_ge raw)
+
+theorem toNetwork_type (raw : List Nat) (h10 : P.typeOf raw ≠ 10) :
+    P.typeOf (Conv.toNetwork raw) = P.typeOf raw ∧ P.verOf (Conv.toNetwork raw) = P.verOf raw := by
+  unfold Conv.toNetwork
+  have h1 := convHeader_type (Conv.convFooter .toNetwork raw)
+  rw [Conv.convFooter_toNetwork_eq raw h10] at h1 ⊢
+  have h2 := Conv.typeOf_revFields (Conv.footerFields raw) raw (fun f hf => by have := Conv.footerFields_ge raw f hf; omega)
+  exact ⟨h1.1.trans h2.1, h1.2.trans h2.2⟩
+
+theorem memOfList_hdr_congr (a b : List Nat) (ht : P.typeOf a = P.typeOf b) (hv : P.verOf a = P.verOf b) :
+    C.memOfList a 1 = C.memOfList b 1 ∧ C.memOfList a 0 = C.memOfList b 0 := by
+  unfold P.typeOf at ht; unfold P.verOf at hv
+  unfold C.memOfList
+  rw [ht, hv]; exact ⟨rfl, rfl⟩
+
+/-- **send then receive, as translated from the C text** (fixed-layout types): converting a host-order PDU with
+    `rtr_pdu_to_network_byte_order` (the sender's `rtr_send_pdu`) and then with `rtr_pdu_header_to_host_byte_order` and
+    `rtr_pdu_footer_to_host_byte_order` (the receiver's `rtr_receive_pdu`) gives the PDU back, byte for byte; every step is defined -/
+theorem send_receive_roundtrip_C (raw : List Nat) (hb : Bytes raw) (h8 : 8 ≤ raw.length)
+    (h6 : P.typeOf raw ≠ 6) (h10 : P.typeOf raw ≠ 10) (hn : need (C.memOfList raw 1) (C.memOfList raw 0) ≤ raw.length) :
+    ((C.rtr_pdu_to_network_byte_order (C.memOfList raw) raw.length 0).bind fun m1 =>
+      (C.rtr_pdu_header_to_host_byte_order m1 raw.length 0).bind fun m2 =>
+        C.rtr_pdu_footer_to_host_byte_order m2 raw.length 0) = some (C.memOfList raw) := by
+  have l1 : (Conv.toNetwork raw).length = raw.length := by
+    unfold Conv.toNetwork; rw [convHeader_length, convFooter_length]
+  have b1 : Bytes (Conv.toNetwork raw) := by
+    unfold Conv.toNetwork; exact convHeader_bytes _ (convFooter_bytes _ raw hb)
+  have t1 := toNetwork_type raw h10
+  have t2 := convHeader_type (Conv.toNetwork raw)
+  have c2 := memOfList_hdr_congr (Conv.convHeader (Conv.toNetwork raw)) raw (t2.1.trans t1.1) (t2.2.trans t1.2)
+  rw [to_network_C_eq_model raw hb h8 h6 h10 hn]
+  simp only [Option.bind_some]
+  unfold C.rtr_pdu_header_to_host_byte_order
+  have hh := header_C_eq_model (Conv.toNetwork raw) b1 (by omega) 1#32 (Or.inr rfl)
+  rw [l1] at hh
+  simp only [hh, Option.bind_some]
+  have hf := footer_to_host_C_eq_model (Conv.convHeader (Conv.toNetwork raw)) (convHeader_bytes _ b1)
+    (by rw [convHeader_length]; omega) (by rw [t2.1, t1.1]; exact h6) (by rw [t2.1, t1.1]; exact h10)
+    (by rw [c2.1, c2.2, convHeader_length, l1]; exact hn)
+  rw [convHeader_length, l1] at hf
+  rw [hf]
+  have : Conv.convFooter .toHost (Conv.convHeader (Conv.toNetwork raw)) = Conv.toHost (Conv.toNetwork raw) := rfl
+  rw [this, Conv.toHost_toNetwork raw h10]
 
 /-- the hypotheses are satisfiable: a 12-byte Serial Query -/
 example : let raw := [1, 1, 0, 7, 0, 0, 0, 12, 0, 0, 0, 5]
